@@ -1,9 +1,11 @@
 (* C16 - Flash storage adapters round-trip blocks without disturbing neighbours. Pinned statements only.
-   Proved for the data adapter (the one whose words are shared between neighbouring blocks); the parity and matrix adapters
-   (own, padded slots) are covered by the adapters correspondence stream and its oracle only - named in the evidence. *)
+   Proved: the data adapter in full (the one whose words are shared between neighbouring blocks); for the parity and matrix
+   adapters (own, padded slots) the layout arithmetic and non-interference (back-to-back rows, disjoint slots, programs confined
+   to the own slot, num_rows fits the range); their read-back values are covered by the adapters correspondence stream and
+   its oracle - named in the evidence. *)
 From Coq Require Import List NArith Arith.
 Require Import Adapters.
-Require Adapt AdaptP.
+Require Adapt AdaptP AdaptM.
 Import ListNotations.
 Open Scope N_scope.
 
@@ -41,7 +43,40 @@ Theorem c16_executable_is_store : forall start d i data d', 1 <= Adapt.wW d ->
   forall x, Adapt.wm d' x = store (Adapt.wW d) start (length data) (Adapt.wm d) i data x.
 Proof. exact AdaptP.data_store_is_store. Qed.
 
+(* matrix adapter: for every write size W >= 1 the triangular packing puts the rows back to back - row m+1 starts where row m
+   ends; a row of chunk m / (8 W) occupies (m / (8 W) + 1) write units; distinct rows never overlap *)
+Theorem c16_matrix_rows_back_to_back : forall W m, 1 <= W ->
+  Adapt.row_offset W (m + 1) = Adapt.row_offset W m + Adapt.row_size W m.
+Proof. exact AdaptM.row_offset_succ. Qed.
+Theorem c16_matrix_row_size : forall W m, 1 <= W -> Adapt.row_size W m = (m / (8 * W) + 1) * W.
+Proof. exact AdaptM.row_size_spec. Qed.
+Theorem c16_matrix_rows_disjoint : forall W a b, 1 <= W -> a < b ->
+  Adapt.row_offset W a + Adapt.row_size W a <= Adapt.row_offset W b.
+Proof. exact AdaptM.rows_disjoint. Qed.
+(* num_rows never advertises a row that does not fit the configured range (nor one beyond the bit width) *)
+Theorem c16_matrix_num_rows_fit : forall W range_len nb j, 1 <= W -> j < Adapt.matrix_num_rows W range_len nb ->
+  Adapt.row_offset W j + Adapt.row_size W j < range_len /\ j < N.of_nat (8 * nb).
+Proof. exact AdaptM.num_rows_fit. Qed.
+(* a successful set_row of the executable model changes no byte outside its own row, hence no byte of any other row *)
+Theorem c16_matrix_rows_do_not_interfere : forall start nb d ma raw d' mb x, 1 <= Adapt.wW d -> length raw = nb -> ma <> mb ->
+  Adapt.matrix_set_row start nb d ma raw = (d', Adapt.AOk tt) ->
+  start + Adapt.row_offset (Adapt.wW d) mb <= x < start + Adapt.row_offset (Adapt.wW d) mb + Adapt.row_size (Adapt.wW d) mb ->
+  Adapt.wm d' x = Adapt.wm d x.
+Proof. exact AdaptM.matrix_rows_do_not_interfere. Qed.
+(* parity adapter: a successful store changes no byte outside the block's own padded slot *)
+Theorem c16_parity_store_confined : forall start d i data d', 1 <= Adapt.wW d ->
+  Adapt.parity_store start d i data = (d', Adapt.AOk tt) ->
+  let up := Adapt.round_up (N.of_nat (length data)) (Adapt.wW d) in
+  forall x, x < start + i * up \/ start + i * up + up <= x -> Adapt.wm d' x = Adapt.wm d x.
+Proof. exact AdaptM.parity_store_confined. Qed.
+
 Print Assumptions c16_store_is_program.
+Print Assumptions c16_matrix_rows_back_to_back.
+Print Assumptions c16_matrix_row_size.
+Print Assumptions c16_matrix_rows_disjoint.
+Print Assumptions c16_matrix_num_rows_fit.
+Print Assumptions c16_matrix_rows_do_not_interfere.
+Print Assumptions c16_parity_store_confined.
 Print Assumptions c16_data_get_after_store.
 Print Assumptions c16_data_frame.
 Print Assumptions c16_split_lens.
